@@ -47,7 +47,7 @@ func init() {
 			}
 			return []runner.Phase{
 				{Name: "tls-table", Variant: "race", Cases: c20tlsCases(), Run: c20tlsCase, CaseTimeout: 120 * time.Second,
-					Required: []string{"tls_sessions", "verify_expected", "no_verify_expected", "handshakes_completed", "handshakes_rejected_by_client", "caller_config_compared", "per_node_names", "client_cert_presented"}},
+					Required: []string{"tls_sessions", "verify_expected", "no_verify_expected", "handshakes_completed", "handshakes_rejected_by_client", "caller_config_compared", "per_node_names", "client_cert_presented", "two_contact_points"}},
 				{Name: "bad-files", Variant: "race", Cases: 6 * len(c20badFiles), Run: c20badFileCase, CaseTimeout: 120 * time.Second,
 					Required: []string{"bad_file_cases"}},
 				{Name: "auth", Variant: "race", Cases: na, Run: c20authCase, CaseTimeout: 120 * time.Second,
@@ -296,6 +296,12 @@ func c20tlsCase(c *runner.Ctx, i int) {
 		return
 	}
 	cl := fakenode.NewCluster(0)
+	// contact points of the two-node form: 0 = the first node only, 1 = both nodes,
+	// 2 = both nodes and only the first presents the case's certificate, the second a valid one of its own
+	contacts := 0
+	if hostForm == 0 && certKind != 4 {
+		contacts = int(runner.H("c20contacts", i) % 3)
+	}
 	var hosts []string
 	type ident struct {
 		dns []string
@@ -310,6 +316,11 @@ func c20tlsCase(c *runner.Ctx, i int) {
 			ids = append(ids, ident{ips: []net.IP{ip}})
 		}
 		hosts = []string{"10.0.0.1"}
+		switch contacts {
+		case 1, 2:
+			// both nodes are contact points: until the ring is read neither has a host id
+			hosts = []string{"10.0.0.1", "10.0.0.2"}
+		}
 	case 1:
 		ip := net.ParseIP("fd00::c0:1")
 		cl.AddNode(ip, "dc1", "rack1", []string{"0"})
@@ -327,10 +338,15 @@ func c20tlsCase(c *runner.Ctx, i int) {
 	}
 	// server certificates
 	certs := make([]tls.Certificate, len(ids))
+	kindOf := make([]int, len(ids))
 	for k := range ids {
 		id := ids[k]
 		ca := pki.ca1
-		switch certKind {
+		kindOf[k] = certKind
+		if contacts == 2 && k == 1 {
+			kindOf[k] = 0
+		}
+		switch kindOf[k] {
 		case 1:
 			id = ident{dns: []string{"other.example"}, ips: []net.IP{net.IPv4(10, 9, 9, 9)}}
 		case 2:
@@ -386,19 +402,33 @@ func c20tlsCase(c *runner.Ctx, i int) {
 		before = c20snap(user)
 	}
 	verify := (user == nil && ehv) || (user != nil && !(cfgKind == 2 && !ehv))
-	trusted := certKind != 2 && trust != 2
-	nameOK := false
-	if serverName != "" {
-		nameOK = certKind == 3
-	} else {
-		nameOK = certKind == 0 || certKind == 2
-	}
 	clientOK := !serverWantsClientCert || clientCertConfigured
-	expectOK := clientOK && (!verify || (trusted && nameOK))
-	key := fmt.Sprintf("Config=%s EnableHostVerification=%v ServerName=%q hosts=%v trust=%s server-cert=%s client-cert=%s",
+	// per node: may a verifying client accept this node's certificate?
+	nodeOK := map[string]bool{}
+	anyContactOK := false
+	for k := range ids {
+		trusted := kindOf[k] != 2 && trust != 2
+		nameOK := false
+		if serverName != "" {
+			nameOK = kindOf[k] == 3
+		} else {
+			nameOK = kindOf[k] == 0 || kindOf[k] == 2
+		}
+		ok := !verify || (trusted && nameOK)
+		nodeOK[ids[k].ips[0].String()] = ok
+		if ok && (k == 0 || contacts > 0 || hostForm != 0) {
+			anyContactOK = true
+		}
+	}
+	expectOK := clientOK && anyContactOK
+	key := fmt.Sprintf("Config=%s EnableHostVerification=%v ServerName=%q hosts=%v trust=%s server-cert=%s%s client-cert=%s",
 		[]string{"nil", "InsecureSkipVerify:false", "InsecureSkipVerify:true"}[cfgKind], ehv, serverName, hosts,
 		[]string{"Config.RootCAs", "CaPath", "none"}[trust], []string{"own-identity", "other-name", "untrusted-CA", "server-name-only", "swapped-between-nodes"}[certKind],
+		[]string{"", "", "(first node only; the second has a valid certificate of its own)"}[contacts],
 		[]string{"none", "configured+required", "configured", "required-but-none"}[clientKind])
+	if contacts > 0 {
+		c.Add("two_contact_points", 1)
+	}
 	c.Eval(runner.H("c20tls", i), verify)
 	c.Add("tls_sessions", 1)
 	if verify {
@@ -426,8 +456,15 @@ func c20tlsCase(c *runner.Ctx, i int) {
 	log, dials := dl.snapshot()
 	completed, failed := 0, 0
 	perNode := map[string]int{}
+	completedOnBad, failedOnGood := 0, 0
 	var sample []string
 	for _, h := range log {
+		if h.completed && !nodeOK[h.node] {
+			completedOnBad++
+		}
+		if !h.completed && nodeOK[h.node] {
+			failedOnGood++
+		}
 		if h.completed {
 			completed++
 			perNode[h.node]++
@@ -458,14 +495,19 @@ func c20tlsCase(c *runner.Ctx, i int) {
 			cls = "C20:tls:connected-without-client-certificate"
 		}
 		c.Violation(cls, fmt.Sprintf("a session was created although verification had to fail (%s)", key), wit)
-	case !expectOK && completed > 0:
+	case !expectOK && completed > 0 && (completedOnBad > 0 || !clientOK):
 		c.Violation("C20:tls:not-verified", fmt.Sprintf("%d TLS handshakes completed although verification had to fail (%s)", completed, key), wit)
-	case expectOK && verify && failed > 0:
-		c.Violation("C20:tls:valid-certificate-rejected", fmt.Sprintf("%d handshakes were rejected although each node's certificate is valid for that node (%s)", failed, key), wit)
+	case clientOK && verify && completedOnBad > 0:
+		c.Violation("C20:tls:not-verified", fmt.Sprintf("%d TLS handshakes completed with a node whose certificate is not valid for it (%s)", completedOnBad, key), wit)
+	case clientOK && verify && failedOnGood > 0:
+		c.Violation("C20:tls:valid-certificate-rejected", fmt.Sprintf("%d handshakes were rejected although that node's certificate is valid for that node (%s)", failedOnGood, key), wit)
 	}
 	if expectOK && sess != nil && len(ids) > 1 {
 		c.Add("per_node_names", 1)
 		for _, id := range ids {
+			if !nodeOK[id.ips[0].String()] {
+				continue
+			}
 			if perNode[id.ips[0].String()] == 0 {
 				c.Violation("C20:tls:node-not-connected", fmt.Sprintf("no handshake completed with node %s although its certificate is valid for it (%s)", id.ips[0], key), wit)
 			}
